@@ -12,4 +12,9 @@ theorem loop_call_sequence :
 /-- the wait group is raised before the goroutine is started and waited for before Loop returns -/
 theorem loop_waits : loopWg = (true, true) := by decide
 
+/-- what counts as a closed-listener / closed-connection error (mapped to a nil return by Loop and
+to a clean `Closed` status by the server): exactly `channel.ErrClosed` and `net.ErrClosed` -
+not `io.EOF`, not a truncated stream -/
+theorem closing_errors : isErrClosingSentinels = ["ErrClosed", "net.ErrClosed"] := by decide
+
 end Jrpc.Tie.C20
